@@ -6,6 +6,7 @@ import LyModel.Props.C14
 #print axioms LyModel.Props.C14.merge_idempotent_partial
 #print axioms LyModel.Props.C14.merge_contains_source
 #print axioms LyModel.Props.C14.merge_contains_leaflist_value
+#print axioms LyModel.Props.C14.merge_keeps_untouched_target
 #print axioms LyModel.Props.C14.dup_equal_recursive
 #print axioms LyModel.Props.C14.dup_equal_content
 #print axioms LyModel.Props.C14.dup_equal_with_flags
